@@ -346,7 +346,8 @@ def r8_not_generated_means_all_explicit(chk: Check) -> None:
                 chk.undecided("C18.R8", fn, construct, "the store is not directly in the true arm of an `if`", fn.loc(x))
                 continue
             t = p_.test
-            if isinstance(t, ast.Compare) and len(t.ops) == 1 and isinstance(t.ops[0], ast.Eq) and {unparse(t.left), unparse(t.comparators[0])} == {"value", "explicit"}:
+            if isinstance(t, ast.Compare) and len(t.ops) == 1 and isinstance(t.ops[0], ast.Eq) and isinstance(t.left, ast.Name) and isinstance(t.comparators[0], ast.Name) and t.left.id != t.comparators[0].id:
+                # two plain names: the final container and the container that was passed in, compared as wholes
                 chk.ok("C18.R8", fn, construct, unparse(t), fn.loc(p_))
             elif isinstance(t, ast.BoolOp) and isinstance(t.op, ast.Or):
                 chk.violation("C18.R8", fn, construct, f"the guard is a disjunction (`{unparse(t, 90)}`): the container is also marked as not generated when the explicit values are merely contained in it - a link that supplies one of two path parameters makes the whole container count as link-provided", fn.loc(p_))
